@@ -42,7 +42,7 @@ def gen_design(r, features=()):
     mods = []
     nprim = r.randint(1, 3)
     for k in range(nprim):
-        m = Mod("PRIM%d" % k)
+        m = Mod(esc(r, "PRIM%d" % k, features))       # also a `celldefine module may carry an escaped name
         m.prim = True
         for j in range(r.randint(1, 4)):
             m.ports.append(("p%d" % j, r.choice(["input", "output", "inout"]), r.choice([1, 1, 2, 4])))
@@ -324,7 +324,8 @@ def expected(mods):
             "nets": dict({nn: (hi - lo + 1, lo) for nn, (hi, lo) in m.nets.items()}, **{c: (1, 0) for c in consts}),
             "conn": conn,
             "assigns": sorted(assigns),
-            "insts": {ins.name: (ins.ref, dict(ins.params), dict(ins.attrs)) for ins in m.insts},
+            # (a module is known under its name without the blank that ends an escaped identifier)
+            "insts": {ins.name: (ins.ref.strip(), dict(ins.params), dict(ins.attrs)) for ins in m.insts},
             "params": dict(m.params), "attrs": dict(m.attrs),
         }
     return exp
